@@ -142,7 +142,8 @@ class kFlowDecompCycles(walkmodel.AbstractWalkModelDiGraph):
 
 
         self.k = k
-        self.optimization_options = optimization_options or {}        
+        # Work on a copy, because below we add entries to this dict, which the caller may reuse for other models
+        self.optimization_options = optimization_options.copy() if optimization_options else {}        
 
         self.subset_constraints_coverage = subset_constraints_coverage
         
